@@ -85,6 +85,7 @@ class Spec:
                     bench_env=self.bench_env, exe_key=self.exe_key)
 
 
+SPLIT_EXPERIMENTS = False      # distribute the runs over two experiments of one session
 RUNS_LEVEL = None      # optional top-level `runs:` settings (e.g. parallel_interference_factor) added to every configuration
 
 
@@ -116,6 +117,12 @@ def raw_config(specs):
             l.append(s.suite)
     cfg = {"executors": executors, "benchmark_suites": suites,
            "experiments": {"X": {"executions": [{e: {"suites": ss}} for e, ss in by_exe.items()]}}}
+    if SPLIT_EXPERIMENTS:
+        # the same runs as two experiments executed in one session: (executor, suite) pairs alternate between them
+        pairs = [(e, su) for e, ss in by_exe.items() for su in ss]
+        if len(pairs) > 1:
+            cfg["experiments"] = {"X": {"executions": [{e: {"suites": [su]}} for e, su in pairs[0::2]]},
+                                  "Y": {"executions": [{e: {"suites": [su]}} for e, su in pairs[1::2]]}}
     if RUNS_LEVEL:
         cfg["runs"] = dict(RUNS_LEVEL)
     return cfg
